@@ -47,7 +47,7 @@ func c07Expected(nc *nats.Conn, root string) map[string]string {
 			return
 		}
 		kids, err := client.GetNodes(nc, id, "all", "", false)
-		if err != nil {
+		if noteTmo(err) != nil {
 			return
 		}
 		for _, k := range kids {
